@@ -281,6 +281,52 @@ async def temporal_variable_scenario():
     return problems, n
 
 
+async def live_state_scenario():
+    """A source that keeps ONE mutable payload, updates it in place and re-yields it per event, consumed in lock step
+    (seed C14-h): response k must be computed from the state at event k -- the engine may not run the source ahead of the
+    response it is producing -- and when response k is handed over the source has produced exactly k+1 events."""
+    from tartiflette import create_engine, Subscription, Resolver
+    name = fresh_schema_name("c14live")
+    progress = []
+
+    @Subscription("Subscription.ticks", schema_name=name)
+    async def ticks(parent, args, ctx, info):      # pylint: disable=unused-variable
+        state = {"n": 0, "day": None}
+        payload = {"ticks": state}
+        for i in range(4):
+            state["n"] = i
+            progress.append(i)
+            yield payload
+
+    @Resolver("Query.ping", schema_name=name)
+    async def ping(parent, args, ctx, info):       # pylint: disable=unused-variable
+        return 1
+
+    engine = await create_engine(TEMPORAL_SDL, schema_name=name)
+    problems, n = [], 0
+    for q in ("subscription { ticks { n } }", "subscription { a: ticks { n m: n } }"):
+        del progress[:]
+        got, seen_progress, raised = [], [], None
+        try:
+            async for r in engine.subscribe(q):
+                got.append(json.loads(json.dumps(r)))
+                seen_progress.append(list(progress))
+                await asyncio.sleep(0)
+        except Exception as e:  # pylint: disable=broad-except
+            raised = repr(e)
+        n += 4
+        key = "a" if "a:" in q else "ticks"
+        want = [{"data": {key: ({"n": i, "m": i} if key == "a" else {"n": i})}} for i in range(4)]
+        want_progress = [list(range(k + 1)) for k in range(4)]
+        if raised or got != want or seen_progress != want_progress:
+            problems.append({"sdl": TEMPORAL_SDL, "query": q, "variables": {}, "raised": raised,
+                             "events": "one dict updated in place and re-yielded: n = 0, 1, 2, 3",
+                             "responses": got, "executing_the_request_against_each_event": want,
+                             "events_the_source_had_produced_when_each_response_arrived": seen_progress,
+                             "expected_progress": want_progress})
+    return problems, n
+
+
 def _canon(resp):
     # engine-authored texts may quote the repr of a user object: addresses differ from run to run
     import re
@@ -428,10 +474,12 @@ def main(tier_, replay=None):
         for i in common.parse_Z_list(so, "sub_mismatch") or []:
             impl_mm.append((s, cases[i] if cases else {}, {}, "stream shape / source arguments"))
     temporal_problems, temporal_events = asyncio.run(temporal_variable_scenario())
-    total_events += temporal_events
+    live_problems, live_events = asyncio.run(live_state_scenario())
+    temporal_problems = temporal_problems + live_problems
+    total_events += temporal_events + live_events
     for pr in temporal_problems[:3]:
-        rep.violation(dict(pr, property="C14", kind="a stream over list / input-object variables of Date / DateTime does not answer "
-                           "each event like executing the request against it", responses=repr(pr["responses"])[:2000],
+        rep.violation(dict(pr, property="C14", kind="a stream (list / input-object variables of Date / DateTime; a source re-yielding one mutable "
+                           "payload) does not answer each event like executing the request against it at that event", responses=repr(pr["responses"])[:2000],
                            executing_the_request_against_each_event=repr(pr["executing_the_request_against_each_event"])[:2000]))
     for s, c, r, why in viol[:5]:
         rep.violation({"property": "C14", "kind": why, "sdl": gen.schema_sdl(s), "query": c.get("query"),
